@@ -570,6 +570,26 @@ class AbsoluteDuration(Duration):
     def total_seconds(self) -> float:
         return abs(self._total)
 
+    def __reduce__(self) -> tuple[type[Self], tuple[int, ...]]:
+        # The components are absolute values: rebuilding from them loses
+        # the sign of the underlying timedelta (invert, comparisons).
+        return self.__class__, (
+            timedelta.days.__get__(self),
+            timedelta.seconds.__get__(self),
+            timedelta.microseconds.__get__(self),
+            0,
+            0,
+            0,
+            0,
+            self._years,
+            self._months,
+        )
+
+    def __deepcopy__(self, _: dict[int, Self]) -> Self:
+        cls, args = self.__reduce__()
+
+        return cls(*args)
+
     @property
     def invert(self) -> bool:
         if self._invert is None:
